@@ -11,6 +11,7 @@ import (
 	"math/bits"
 	"os"
 	"os/exec"
+	"path/filepath"
 	"reflect"
 	"regexp"
 	"sort"
@@ -1004,6 +1005,41 @@ func cmdC18Oracle(args []string) {
 			}
 		}
 		rapid.VerifSetFlags(old)
+		// the same with a stale fail file in the test's directory (replayed, passes): the random phase is as fresh as ever
+		{
+			cwd, _ := os.Getwd()
+			dir, err := os.MkdirTemp("", "verif-c18-")
+			if err == nil {
+				ffdir := filepath.Join(dir, "testdata", "rapid", "T")
+				_ = os.MkdirAll(ffdir, 0o755)
+				_ = rapid.VerifSaveFailFile(filepath.Join(ffdir, "T-20260101000000-1.fail"), rapid.VerifRapidVersion(), []byte("stale\n"), 12345, make([]uint64, 64))
+				f2 := old
+				f2.Seed, f2.Checks, f2.NoFailFile = 0, 6, false
+				rapid.VerifSetFlags(f2)
+				_ = os.Chdir(dir)
+				seenS := map[string]int{}
+				for k := 0; k < 8; k++ {
+					var firsts []string
+					tb := &recTB{name: "T"}
+					runTB(func() {
+						rapid.Check(tb, func(t *rapid.T) {
+							firsts = append(firsts, fmt.Sprint(rapid.SliceOfN(rapid.Uint64(), 16, 16).Draw(t, "v")))
+						})
+					})
+					if len(firsts) > 1 {
+						seenS[fmt.Sprint(firsts[1:])]++ // the first invocation is the replay of the stale file
+					}
+				}
+				_ = os.Chdir(cwd)
+				rapid.VerifSetFlags(old)
+				_ = os.RemoveAll(dir)
+				stats["check_calls_with_stale_fail_file"] = 8
+				stats["distinct_case_sequences_with_stale_fail_file"] = len(seenS)
+				if len(seenS) < 8 {
+					fails = append(fails, map[string]any{"property": "C18", "what": "Check calls without -rapid.seed repeat a fixed sequence of test cases when a stale fail file is present", "distinct": len(seenS), "of": 8, "index": -6})
+				}
+			}
+		}
 		stats["check_calls_in_process"] = 12
 		stats["distinct_case_sequences"] = len(seen)
 		if len(seen) < 12 {
